@@ -360,6 +360,20 @@ pub fn c18(ctx: &Ctx) {
             }
         }
     }
+    // purity: the same arguments evaluated in another order give bit-identical results
+    {
+        let mut rng2 = Rng::new(ctx.seed, 0x0C18_9999);
+        let xs: Vec<(f32, f32)> = (0..20_000).map(|i| (if i % 2 == 0 { rng2.unit() as f32 } else { f32::from_bits(rng2.below(0x7F00_0000) as u32 + 0x0080_0000) }, rng2.pick(&LIB_EXPONENTS))).collect();
+        let fwd: Vec<[u32; 3]> = xs.iter().map(|(x, y)| [powf(*x, *y).to_bits(), expf(*x).to_bits(), cbrtf(*x).to_bits()]).collect();
+        let mut rev: Vec<[u32; 3]> = xs.iter().rev().map(|(x, y)| [cbrtf(*x).to_bits(), expf(*x).to_bits(), powf(*x, *y).to_bits()]).map(|a| [a[2], a[1], a[0]]).collect();
+        rev.reverse();
+        // and with every call repeated immediately
+        let twice: Vec<[u32; 3]> = xs.iter().map(|(x, y)| { let _ = (powf(*x, *y), expf(*x), cbrtf(*x)); [powf(*x, *y).to_bits(), expf(*x).to_bits(), cbrtf(*x).to_bits()] }).collect();
+        if let Some(i) = (0..xs.len()).find(|&i| fwd[i] != rev[i] || fwd[i] != twice[i]) {
+            ev::violation("C18|order-dependent", format!("powf/expf/cbrtf({:e}, {:e}) returns different bits depending on the calls made before it", xs[i].0, xs[i].1), J::obj().set("kind", "order").set("x_bits", xs[i].0.to_bits()).set("y_bits", xs[i].1.to_bits()));
+        }
+        tot_calls += 3 * 60_000;
+    }
     ev::observe("totality_calls", tot_calls);
     ev::observe("totality_calls_returned", nonpanic);
 
